@@ -38,11 +38,12 @@ fn items(ts: &str) -> Vec<String> {
     out
 }
 
-struct Rep { cases: usize, fails: Vec<(String, String, String)> }
+struct Rep { cases: usize, both_ok: usize, fails: Vec<(String, String, String)> }
 impl Rep {
     fn same(&mut self, a_src: &str, b_src: &str) {
         self.cases += 1;
         let (a, b) = (expand(a_src), expand(b_src));
+        if a.is_ok() && b.is_ok() { self.both_ok += 1; }
         if a != b {
             self.fails.push((a_src.replace('\n', " "), b_src.replace('\n', " "), format!("{:?} <> {:?}", a, b)));
         }
@@ -51,6 +52,7 @@ impl Rep {
         self.cases += 1;
         match (expand(a_src), expand(b_src)) {
             (Ok(a), Ok(b)) => {
+                self.both_ok += 1;
                 let (mut x, mut y) = (items(&a), items(&b));
                 x.sort();
                 y.sort();
@@ -190,6 +192,7 @@ fn c06(r: &mut Rep) {
         r.cases += 1;
         match (expand(joint), expand(proj)) {
             (Ok(j), Ok(p)) => {
+                r.both_ok += 1;
                 let ji = items(&j);
                 for it in items(&p) {
                     if !ji.contains(&it) {
@@ -203,17 +206,187 @@ fn c06(r: &mut Rep) {
     }
 }
 
+
+// ---------------------------------------------------------------- c14: repeat / skip_repeat / stop_repeat written out
+#[derive(Clone, Copy, PartialEq, Debug)]
+enum Mk { None, Own, Rep, Skip, Stop, StopRep }
+const MARKS: [Mk; 6] = [Mk::None, Mk::Own, Mk::Rep, Mk::Skip, Mk::Stop, Mk::StopRep];
+
+fn sequences(n: usize) -> Vec<Vec<Mk>> {
+    let mut out: Vec<Vec<Mk>> = vec![vec![]];
+    for _ in 0..n {
+        let mut nx = vec![];
+        for s in &out { for m in MARKS { let mut t = s.clone(); t.push(m); nx.push(t); } }
+        out = nx;
+    }
+    // a second `repeat` inside an open block without `stop_repeat` is a (documented) error: outside the statement
+    out.into_iter().filter(|s| { let mut open = false; for m in s { match m { Mk::Rep => { if open { return false; } open = true; } Mk::Stop => open = false, Mk::StopRep => open = true, _ => {} } } true }).collect()
+}
+
+// member-level categories carried by the repeating member: (category name, instruction text with a block number)
+fn member_instr(cat: &str, k: usize) -> String {
+    match cat { "map" => format!("#[map(~.blk{}())]", k), "child" => format!("#[child(c{})]", k), "ghost" => format!("#[ghost({{ {} }})]", 100 + k), "type_hint" => "#[type_hint(as {})]".to_string(), _ => unreachable!() }
+}
+
+fn c14_members(r: &mut Rep) {
+    let carriers: [&[&str]; 5] = [&["map"], &["child"], &["ghost"], &["map", "child"], &["child", "ghost"]];
+    let sels: [&[&str]; 5] = [&[], &["map"], &["child"], &["ghost"], &["map", "ghost"]];   // [] = everything
+    let head = "#[map(B)]\n#[into_existing(B)]\n#[child_parents(c0: C, c1: C, c2: C, c3: C, c4: C)]";
+    for seq in sequences(5) {
+        if !seq.iter().any(|m| matches!(m, Mk::Rep | Mk::StopRep)) { continue; }
+        for carrier in carriers {
+            for sel in sels {
+                let own = if !carrier.contains(&"ghost") { "#[ghost({ 99 })]" } else { "#[map(~.own())]" };
+                let own_is_map = own.starts_with("#[map");
+                if own_is_map && carrier.contains(&"map") { continue; }
+                let selected = |c: &str| sel.is_empty() || sel.contains(&c);
+                let rep_txt = if sel.is_empty() { "#[o2o(repeat)]".to_string() } else { format!("#[o2o(repeat({}))]", sel.join(", ")) };
+                let (mut a, mut b) = (String::new(), String::new());
+                let mut active: Option<usize> = None;
+                for (i, m) in seq.iter().enumerate() {
+                    let all_carried: String = carrier.iter().map(|c| member_instr(c, i)).collect::<Vec<_>>().join(" ");
+                    let received = |k: usize| carrier.iter().filter(|c| selected(c)).map(|c| member_instr(c, k)).collect::<Vec<_>>().join(" ");
+                    match m {
+                        Mk::None => { a += &format!("f{}: i32, ", i); b += &format!("{} f{}: i32, ", active.map(received).unwrap_or_default(), i); }
+                        Mk::Own => { a += &format!("{} f{}: i32, ", own, i); b += &format!("{} {} f{}: i32, ", own, active.map(received).unwrap_or_default(), i); }
+                        Mk::Skip => { a += &format!("#[o2o(skip_repeat)] {} f{}: i32, ", own, i); b += &format!("{} f{}: i32, ", own, i); }
+                        Mk::Stop => { active = None; a += &format!("#[o2o(stop_repeat)] f{}: i32, ", i); b += &format!("f{}: i32, ", i); }
+                        Mk::Rep => { active = Some(i); a += &format!("{} {} f{}: i32, ", rep_txt, all_carried, i); b += &format!("{} f{}: i32, ", all_carried, i); }
+                        Mk::StopRep => { active = Some(i); a += &format!("#[o2o(stop_repeat)] {} {} f{}: i32, ", rep_txt, all_carried, i); b += &format!("{} f{}: i32, ", all_carried, i); }
+                    }
+                }
+                r.same(&format!("{}\nstruct A {{ {} }}", head, a), &format!("{}\nstruct A {{ {} }}", head, b));
+            }
+        }
+    }
+}
+
+// fields of enum variants: a block ends with the variant unless it permeates
+fn c14_enum_fields(r: &mut Rep) {
+    let shapes: [&[usize]; 4] = [&[2, 1, 1], &[1, 2, 1], &[1, 1, 2], &[4]];
+    for seq in sequences(4) {
+        if !seq.iter().any(|m| matches!(m, Mk::Rep | Mk::StopRep)) { continue; }
+        for shape in shapes {
+            for permeate in [false, true] {
+                for sel in ["", "map", "ghost"] {
+                    let rep_txt = match (permeate, sel) { (false, "") => "#[o2o(repeat)]".to_string(), (false, s) => format!("#[o2o(repeat({}))]", s), (true, "") => "#[o2o(repeat(permeate()))]".to_string(), (true, s) => format!("#[o2o(repeat(permeate(), {}))]", s) };
+                    let carried = |k: usize| format!("#[from(~ * {})] #[into(~ / {})]", k + 2, k + 2);
+                    let (mut a, mut b) = (String::new(), String::new());
+                    let mut active: Option<usize> = None;
+                    let mut i = 0;
+                    for (vi, n) in shape.iter().enumerate() {
+                        a += &format!("V{} {{ ", vi); b += &format!("V{} {{ ", vi);
+                        for _ in 0..*n {
+                            let recv = |k: usize| if sel == "" || sel == "map" { carried(k) } else { String::new() };
+                            match seq[i] {
+                                Mk::None => { a += &format!("f{}: i32, ", i); b += &format!("{} f{}: i32, ", active.map(recv).unwrap_or_default(), i); }
+                                Mk::Own => { a += &format!("#[ghost({{ 99 }})] f{}: i32, ", i); b += &format!("#[ghost({{ 99 }})] {} f{}: i32, ", active.map(recv).unwrap_or_default(), i); }
+                                Mk::Skip => { a += &format!("#[o2o(skip_repeat)] #[map(~.own())] f{}: i32, ", i); b += &format!("#[map(~.own())] f{}: i32, ", i); }
+                                Mk::Stop => { active = None; a += &format!("#[o2o(stop_repeat)] f{}: i32, ", i); b += &format!("f{}: i32, ", i); }
+                                Mk::Rep => { active = Some(i); a += &format!("{} {} f{}: i32, ", rep_txt, carried(i), i); b += &format!("{} f{}: i32, ", carried(i), i); }
+                                Mk::StopRep => { active = Some(i); a += &format!("#[o2o(stop_repeat)] {} {} f{}: i32, ", rep_txt, carried(i), i); b += &format!("{} f{}: i32, ", carried(i), i); }
+                            }
+                            i += 1;
+                        }
+                        a += "}, "; b += "}, ";
+                        if !permeate { active = None; }
+                    }
+                    // a non-permeating block that is still open at the end of its variant is closed there: a later `repeat` needs no stop
+                    let ea = expand(&format!("#[map(F)]\nenum E {{ {} }}", a));
+                    if !permeate { if let Err(e) = &ea { if e.contains("must be terminated") { continue; } } }
+                    if permeate || true { r.same(&format!("#[map(F)]\nenum E {{ {} }}", a), &format!("#[map(F)]\nenum E {{ {} }}", b)); }
+                }
+            }
+        }
+    }
+}
+
+// variant-level repeat
+fn c14_variants(r: &mut Rep) {
+    for seq in sequences(4) {
+        if !seq.iter().any(|m| matches!(m, Mk::Rep | Mk::StopRep)) { continue; }
+        for sel in ["", "type_hint", "ghost", "map"] {
+            let rep_txt = if sel.is_empty() { "#[o2o(repeat)]".to_string() } else { format!("#[o2o(repeat({}))]", sel) };
+            let carried = "#[type_hint(as {})]";
+            let recv = if sel == "" || sel == "type_hint" { carried } else { "" };
+            let (mut a, mut b) = (String::new(), String::new());
+            let mut active = false;
+            for (i, m) in seq.iter().enumerate() {
+                match m {
+                    Mk::None => { a += &format!("V{}(i32), ", i); b += &format!("{} V{}(i32), ", if active { recv } else { "" }, i); }
+                    Mk::Own => { a += &format!("#[map(W{})] V{}(i32), ", i, i); b += &format!("#[map(W{})] {} V{}(i32), ", i, if active { recv } else { "" }, i); }
+                    Mk::Skip => { a += &format!("#[o2o(skip_repeat)] #[map(W{})] V{}(i32), ", i, i); b += &format!("#[map(W{})] V{}(i32), ", i, i); }
+                    Mk::Stop => { active = false; a += &format!("#[o2o(stop_repeat)] V{}(i32), ", i); b += &format!("V{}(i32), ", i); }
+                    Mk::Rep => { active = true; a += &format!("{} {} V{}(i32), ", rep_txt, carried, i); b += &format!("{} V{}(i32), ", carried, i); }
+                    Mk::StopRep => { active = true; a += &format!("#[o2o(stop_repeat)] {} {} V{}(i32), ", rep_txt, carried, i); b += &format!("{} V{}(i32), ", carried, i); }
+                }
+            }
+            r.same(&format!("#[map(F)]\nenum E {{ {} }}", a), &format!("#[map(F)]\nenum E {{ {} }}", b));
+        }
+    }
+}
+
+// trait-level repeat: parameters copied onto later instructions of the same name
+fn c14_traits(r: &mut Rep) {
+    // (instruction name, other name that must not receive, body, the terminal parameter kind)
+    let setups: [(&str, &str, &str, &str); 4] = [
+        ("from_owned", "owned_into", "struct S { x: i32 }", "return"),
+        ("owned_into", "from_owned", "struct S { x: i32 }", "update"),
+        ("try_from_ref", "ref_try_into", "struct S { x: i32 }", "return"),
+        ("from_owned", "owned_into", "enum S { #[literal(1)] V, #[literal(2)] W }", "default"),
+    ];
+    let sels: [&[&str]; 5] = [&[], &["vars"], &["update"], &["quick_return"], &["default_case"]];
+    for seq in sequences(4) {
+        if !seq.iter().any(|m| matches!(m, Mk::Rep | Mk::StopRep)) { continue; }
+        if seq.iter().any(|m| *m == Mk::Own) { continue; }   // an own value for a repeated parameter is a documented error
+        for (name, other, body, term) in setups {
+            for sel in sels {
+                let fall = name.contains("try");
+                let ty = |i: usize| if fall { format!("T{}, E", i) } else { format!("T{}", i) };
+                let vars = |k: usize| format!("vars(v: {{ {} }})", k);
+                let termtxt = |k: usize| match term { "return" => format!("return todo{}!()", k), "update" => format!("..upd{}()", k), _ => format!("_ => dflt{}!()", k) };
+                let termcat = match term { "return" => "quick_return", "update" => "update", _ => "default_case" };
+                let selected = |c: &str| sel.is_empty() || sel.contains(&c);
+                let rep_txt = format!("repeat({})", sel.join(", "));
+                let recv = |k: usize| { let mut v = vec![]; if selected("vars") { v.push(vars(k)); } if selected(termcat) { v.push(termtxt(k)); } v.join(", ") };
+                let bar = |p: String| if p.is_empty() { String::new() } else { format!("| {}", p) };
+                let (mut a, mut b) = (String::new(), String::new());
+                let mut active: Option<usize> = None;
+                for (i, m) in seq.iter().enumerate() {
+                    if i == 2 { let o = format!("#[{}({})]\n", other, if other.contains("try") { "X, E" } else { "X" }); a += &o; b += &o; }
+                    match m {
+                        Mk::None | Mk::Own => { a += &format!("#[{}({})]\n", name, ty(i)); b += &format!("#[{}({}{})]\n", name, ty(i), bar(active.map(recv).unwrap_or_default())); }
+                        Mk::Skip => { a += &format!("#[{}({}| skip_repeat, {})]\n", name, ty(i), termtxt(90 + i)); b += &format!("#[{}({}| {})]\n", name, ty(i), termtxt(90 + i)); }
+                        Mk::Stop => { active = None; a += &format!("#[{}({}| stop_repeat)]\n", name, ty(i)); b += &format!("#[{}({})]\n", name, ty(i)); }
+                        Mk::Rep => { active = Some(i); a += &format!("#[{}({}| {}, {}, {})]\n", name, ty(i), vars(i), rep_txt, termtxt(i)); b += &format!("#[{}({}| {}, {})]\n", name, ty(i), vars(i), termtxt(i)); }
+                        Mk::StopRep => { active = Some(i); a += &format!("#[{}({}| stop_repeat, {}, {}, {})]\n", name, ty(i), vars(i), rep_txt, termtxt(i)); b += &format!("#[{}({}| {}, {})]\n", name, ty(i), vars(i), termtxt(i)); }
+                    }
+                }
+                r.same(&format!("{}{}", a, body), &format!("{}{}", b, body));
+            }
+        }
+    }
+}
+
+fn c14(r: &mut Rep) {
+    c14_members(r);
+    c14_enum_fields(r);
+    c14_variants(r);
+    c14_traits(r);
+}
+
 fn main() {
     panic::set_hook(Box::new(|_| {}));
     let suite = std::env::args().nth(1).unwrap_or_default();
-    let mut r = Rep { cases: 0, fails: vec![] };
+    let mut r = Rep { cases: 0, both_ok: 0, fails: vec![] };
     match suite.as_str() {
         "c13" => c13(&mut r),
         "c12" => c12(&mut r),
         "c06" => c06(&mut r),
+        "c14" => c14(&mut r),
         _ => { eprintln!("usage: metamorphic c13|c12|c06"); std::process::exit(2); }
     }
-    println!("{{\"suite\":\"{}\",\"cases\":{},\"failures\":{}}}", suite, r.cases, r.fails.len());
+    println!("{{\"suite\":\"{}\",\"cases\":{},\"both_expand\":{},\"failures\":{}}}", suite, r.cases, r.both_ok, r.fails.len());
     for (a, b, why) in r.fails.iter().take(10) {
         println!("FAIL\t{}\t{}\t{}", a, b, why.replace('\n', " ").chars().take(600).collect::<String>());
     }
